@@ -1,0 +1,9 @@
+//go:build verif
+
+package cloudwatch
+
+// VerifSetAPI replaces the AWS client (the repository's own tests do the same from inside the package),
+// so that the verification harness can drive SendMetricsAsync without AWS credentials or network.
+func (client *Client) VerifSetAPI(api CloudwatchClient) {
+	client.cloudwatch = api
+}
